@@ -114,7 +114,15 @@ def c031_version(ctx):
               "the set of pushed cursor kinds changed (direct=%d concat=%d)" % (len(direct), len(concat)))
     # L0: every file is pushed
     heads = [h for h in P.call_points(f, r"Iterator>::next$") if P.reach(f, P.after(f, h), [h])]
-    l0_push = [p for p in direct if "cursors" in K.var_names(f, P.term_at(f, p)["args"][0]) and "this_level_cursors" not in K.var_names(f, P.term_at(f, p)["args"][0])]
+    merged_vec = set()
+    for m_ in mc:
+        merged_vec |= K.user_locals(f, P.term_at(f, m_)["args"][0])
+    cc_ = P.call_points(f, r"concat_cursor::ConcatenatingCursor.*::new$")
+    level_vec = set()
+    for c_ in cc_:
+        level_vec |= K.user_locals(f, P.term_at(f, c_)["args"][0])
+    merged_vec -= level_vec
+    l0_push = [p for p in direct if K.user_locals(f, P.term_at(f, p)["args"][0]) & merged_vec and not (K.user_locals(f, P.term_at(f, p)["args"][0]) & level_vec)]
     lv_push = [p for p in direct if p not in l0_push]
     for pts, label in ((l0_push, "L0 file"), ):
         hs = [h for h in heads if pts and P.reach(f, P.after(f, h), pts, avoid=set(heads) - {h})]
@@ -137,12 +145,12 @@ def c031_version(ctx):
     # the level's files are concatenated and pushed unless there are none
     for pt in concat:
         cc = P.call_points(f, r"concat_cursor::ConcatenatingCursor.*::new$")
-        ctx.check(R, f, "concat-level", bool(cc) and all("this_level_cursors" in K.var_names(f, P.term_at(f, c)["args"][0]) for c in cc), "the level's cursors are concatenated",
+        ctx.check(R, f, "concat-level", bool(cc) and all(K.user_locals(f, P.term_at(f, c)["args"][0]) & {l for p_ in lv_push for l in K.user_locals(f, P.term_at(f, p_)["args"][0])} for c in cc), "the level's cursors are concatenated",
                   "the ConcatenatingCursor is not built over the level's cursors", pt=pt)
         g = K.guarded_by_call(f, pt, r"Vec.*::is_empty$", label="sw:0")
         ctx.check(R, f, "concat-nonempty", g is not None, "a level is skipped only when it has no overlapping file", "a level's cursors can be dropped", pt=pt)
     for pt in mc:
-        ctx.check(R, f, "merge-all", "cursors" in K.var_names(f, P.term_at(f, pt)["args"][0]), "MergingCursor takes the collected cursors", "MergingCursor is not built over the collected cursors", pt=pt)
+        ctx.check(R, f, "merge-all", bool(K.user_locals(f, P.term_at(f, pt)["args"][0]) & {l for p_ in l0_push + concat for l in K.user_locals(f, P.term_at(f, p_)["args"][0])}), "MergingCursor takes the collected cursors", "MergingCursor is not built over the collected cursors", pt=pt)
     # the lazy closure opens the file of the iterated metadata
     for g in ctx.prog.closures_of(f):
         lc = P.call_points(g, r"range_scan::lazy_cursor$")
